@@ -504,6 +504,9 @@ func (tr *gtTr) binary(x *ast.BinaryExpr, env *venv) ex {
 		}
 		a := tr.expr(x.X, env)
 		b := tr.expr(x.Y, env)
+		if a.typ.isErr || b.typ.isErr {
+			gtFail("comparison of error values (other than with nil) is outside the subset")
+		}
 		unify(&a, &b, "comparison")
 		var code string
 		switch a.typ.kind {
